@@ -5,6 +5,7 @@ values: category names and cell contents are arbitrary (symbolic) strings, every
 import itertools
 import z3
 from pyvc.api import Contract, contract
+from contracts._frames import query_frame
 from pyvc.values import Obj, NdArr, NaN, z, is_sym
 from pyvc import models, pdmodel, dicts
 
@@ -103,6 +104,7 @@ CELL = ["str", "none", "nan"]
 
 
 @contract(F + "::CategoriesToIntegers.transform", "C19")
+@query_frame("self")
 class Transform(Contract):
     """single=False: 2 rows x (a, b, numeric x); every categorical cell is an arbitrary string, None or NaN"""
     variants = [(se, cells) for se in (False, True) for cells in
@@ -180,9 +182,14 @@ class Fit(Contract):
         data = {"a": [E.str("a0"), E.str("a1"), None], "b": [E.str("b0"), NaN, E.str("b2")], "x": [E.real("x0"), E.real("x1"), E.real("x2")]}
         return dict(self=s, X=pdmodel.new_frame(["a", "x", "b"], data), _data=data)
 
+    def old(self, E, a):
+        return dict(params={k: a.self.fields[k] for k in ("columns", "remove", "skip_errors", "single")})
+
     def ensures(self, E, a, res, old):
         s = a.self
         out = {"returns_self": z3.BoolVal(res is s), "categorical_columns": z3.BoolVal(s.fields.get("_fit_columns") == COLS)}
+        # what fit detects goes to fitted attributes: the constructor parameters (columns=None means "detect at every fit") are left alone
+        out["constructor_parameters_unchanged"] = z3.BoolVal(all(s.fields.get(k) is v for k, v in old["params"].items()))
         d = s.fields.get("_categories")
         if not isinstance(d, dict):
             out["categories"] = z3.BoolVal(False)
